@@ -130,6 +130,8 @@ def c10(F, R, tier):
     e_lti_props.run_c10_dc(F, R, tier)
     e_lti_props.dc_first_output(F, R, tier)
     R.floor('DC-first', 4)
+    e_lti_props.linear_history(F, R, tier)
+    R.floor('L-history', 8)
 
 
 @register('C04', 'other',
